@@ -232,7 +232,7 @@ MUTANTS = [
            "                    if queue:\n                        for dep in obj.obj_dependencies:\n                            wait_and_check(dep.q_task, logger=logger)\n",
            "", expect=('R1', 'wait-before-build'), quick=True),
     Mutant('wait-after-build', LIB,
-           "                    if queue:\n                        for dep in obj.obj_dependencies:\n                            wait_and_check(dep.q_task, logger=logger)\n                    # Schedule object compilation on the workqueue\n                    obj.build(builder=builder, compiler=compiler, logger=logger,\n                            workqueue=queue, force=force, include_dirs=include_dirs)\n",
+           "                    if queue:\n                        for dep in obj.obj_dependencies:\n                            wait_and_check(dep.q_task, logger=logger)\n\n                    # Schedule object compilation on the workqueue\n                    obj.build(builder=builder, compiler=compiler, logger=logger,\n                            workqueue=queue, force=force, include_dirs=include_dirs)\n",
            "                    obj.build(builder=builder, compiler=compiler, logger=logger,\n                            workqueue=queue, force=force, include_dirs=include_dirs)\n                    if queue:\n                        for dep in obj.obj_dependencies:\n                            wait_and_check(dep.q_task, logger=logger)\n",
            expect=('R1', 'wait-before-build')),
     Mutant('not-reversed', LIB, "topo_nodes = list(reversed(list(nx.topological_sort(dep_graph))))", "topo_nodes = list(nx.topological_sort(dep_graph))",
